@@ -104,7 +104,7 @@ type Contracts struct {
 	Externs   map[string]*Contract // full name
 	Macros    map[string]*SpecMacro
 	GhostMaps map[string]*GhostMap
-	GhostVars map[string]string // name -> sort
+	GhostVars map[string]string    // name -> sort
 	Pools     map[string]*PoolDecl // pkg::Var
 	GInvs     []*GInv
 	RawSMT    []string // raw declarations
@@ -114,13 +114,13 @@ type Contracts struct {
 }
 
 type SpecFun struct {
-	Name   string
-	Args   []string
-	Ret    string
+	Name    string
+	Args    []string
+	Ret     string
 	SrcArgs []string
 	SrcRet  string
-	GoType string // optional Go type of the result (e.g. *ZogIssue), resolved in Pkg
-	Pkg    string
+	GoType  string // optional Go type of the result (e.g. *ZogIssue), resolved in Pkg
+	Pkg     string
 }
 
 type AxiomDecl struct {
